@@ -119,9 +119,12 @@ Theorem C05_check_expression_statement_outcomes : forall toks scope v,
   (exists r, check_expression_statement toks scope v = Ok r) \/ (exists m, check_expression_statement toks scope v = Fatal m).
 Proof. exact check_expression_statement_outcomes. Qed.
 Print Assumptions C05_check_expression_statement_outcomes.
-(* CheckControlStatement never raises; its helper check_nest has no end-of-tokens test (`while depth > 0`), so on unbalanced
-   parentheses it would not return: Hang in the model - not reachable through IsControlStatement, which needs skip_nest to succeed *)
-Theorem C05_check_control_statement_outcomes : forall toks scope v, toks <> [] ->
-  (exists r, check_control_statement toks scope v = Ok r) \/ check_control_statement toks scope v = Hang.
-Proof. exact check_control_statement_outcomes. Qed.
-Print Assumptions C05_check_control_statement_outcomes.
+(* CheckControlStatement: total - no exception, no fuel exhaustion (check_nest stops at the end of the tokens) *)
+Theorem C05_check_control_statement_total : forall toks scope v, toks <> [] -> exists r, check_control_statement toks scope v = Ok r.
+Proof. exact check_control_statement_total. Qed.
+Print Assumptions C05_check_control_statement_total.
+(* the recorded invocation (`<TAB>else(` in a function body) on which check_nest used not to return *)
+Theorem C05_check_control_statement_returns_on_else_paren :
+  check_control_statement else_paren_tokens 2 else_paren_view = Ok ([], else_paren_view).
+Proof. exact check_control_statement_returns_on_else_paren. Qed.
+Print Assumptions C05_check_control_statement_returns_on_else_paren.
